@@ -197,7 +197,7 @@ def make_case(rng, method, n, order, complex_valued=False):
         xs = []
         int_x = rng.random() < 0.06 and not complex_valued
         for _ in range(40):
-            x = float(rng.choice([1, 2, 3, -1, -2, 4, 5, 8, -3, 0])) if int_x else draw_point(rng)
+            x = float(rng.choice([1, 2, 3, -1, -2, 4, 5, 8, -3, -5])) if int_x else draw_point(rng)
             sc = X.scan(tree, [x])
             if sc.ok and sc.maxabs < 1e50:
                 xs.append(x)
@@ -321,6 +321,16 @@ class Measure(object):
         return s_of_rho(self.chat, self.n, rho)
 
 
+def _retune_another(nd, f, method, n, order):
+    try:
+        other = nd.Derivative(f, method=method, n=n, order=order)
+        other.step.base_step = 0.25
+        other.step.num_steps = 1
+        other.step.scale = 77.0
+    except Exception:
+        pass
+
+
 def run_case(case, ctx, full_output=True):
     """Executes the case on the real library.  Returns dict(outcome=..., elems=[Measure...], info=..., obs=...)."""
     import numdifftools as nd
@@ -371,6 +381,7 @@ def run_case(case, ctx, full_output=True):
             x = np.asarray(x)[()]
         ctx.count('x_given_as:' + form)
     _OBS.clear()
+    retune = False
     res = dict(outcome='ok', elems=[], obs=_OBS, rec=rec, tree=tree, x=x)
     try:
         step_obj = build_step(nd, case['step'])
@@ -382,6 +393,12 @@ def run_case(case, ctx, full_output=True):
             except Exception:
                 pass
             _OBS.clear()       # (what the monitors saw of the earlier object is not part of the judged call)
+        if case['step']['kind'] == 'default' and int(abs(xs[0]) * 1e5) % 4 == 1:
+            # history: another object built with the same defaults had its own step generator retuned through the public
+            # `.step` attribute (one huge step, no extrapolation), before and after the judged object is built
+            ctx.count('another_default_objects_step_generator_retuned')
+            retune = True
+            _retune_another(nd, f, method, n, order)
         if full_output and case.get('fo_later'):
             # full_output switched on after construction (the attribute is public and the test helpers do this)
             dobj = nd.Derivative(rec, step=step_obj, method=method, n=n, order=order)
@@ -403,6 +420,8 @@ def run_case(case, ctx, full_output=True):
             _OBS.clear()
             del rec.calls[:]
             ctx.count('same_array_updated_in_place_between_calls')
+        if retune:
+            _retune_another(nd, f, method, n, order)
         x_then = np.array(x, copy=True) if isinstance(x, np.ndarray) else None
         with np.errstate(all='ignore'):
             out = dobj(x)
